@@ -7,7 +7,7 @@ use serde_json::{Value, json};
 use std::sync::mpsc::{Receiver, Sender, channel};
 use std::sync::{Arc, Mutex};
 
-const RULE: &str = "N in {2,3} rewriter instances from an 18-entry menu (plain, selector-heavy, memory-limited, failing, meta-charset, large-buffer, case-variant selectors, documents ending inside svg/math, svg title + CDATA, per-type counters over many equally long custom element names), each a call sequence new, write*, end; EVERY interleaving of their calls (call-granularity scheduler: real OS threads that run only while they hold the baton) x thread assignments {one thread per instance, all on one thread, Send rewriter migrated to another thread after every call}, plus selector parsing on other threads in between; oracle: every instance's observation (sink log, events, results, accounted memory) equals its solo single-thread run; repetition gives identical observations; C API: a thread only ever sees and clears its own last error, in all interleavings of {error, take} on two threads; non-trivial = distinct (instances, interleaving, assignment) where both instances produced output";
+const RULE: &str = "N in {2,3} rewriter instances from a 19-entry menu (plain, selector-heavy, memory-limited, failing, meta-charset, large-buffer, case-variant selectors, documents ending inside svg/math, svg title + CDATA, per-type counters over many equally long custom element names), each a call sequence new, write*, end; EVERY interleaving of their calls (call-granularity scheduler: real OS threads that run only while they hold the baton) x thread assignments {one thread per instance, all on one thread, Send rewriter migrated to another thread after every call}, plus selector parsing on other threads in between; oracle: every instance's observation (sink log, events, results, accounted memory) equals its solo single-thread run; repetition gives identical observations; C API: a thread only ever sees and clears its own last error, in all interleavings of {error, take} on two threads; non-trivial = distinct (instances, interleaving, assignment) where both instances produced output";
 
 #[derive(Clone)]
 struct Inst {
@@ -48,6 +48,7 @@ fn menu() -> Vec<Inst> {
         Inst { name: "deep-nesting", p: leak(Cfg::with(vec![obs("div div"), obs("div:nth-of-type(2)")]).strict(false)), chunks: vec!["<div>".repeat(40).into_bytes(), "</div>".repeat(25).into_bytes(), "<div>".repeat(30).into_bytes()] },
         Inst { name: "ends-inside-svg", p: leak(Cfg::with(all.clone()).strict(false)), chunks: ch(&["<p>a</p><svg><title>in ", "title<b>x"]) },
         Inst { name: "svg-title-cdata", p: leak(Cfg::with(all.clone()).strict(false)), chunks: ch(&["<svg><title>t</title><![CDATA[z]]><a/>", "<desc>d</desc><path/></svg><a/>"]) },
+        Inst { name: "html-title-after-foreign", p: leak(Cfg::with(all.clone()).strict(false)), chunks: ch(&["<title>t</title><![CDATA[x]]><a/>y", "</desc><b/>z</foreignObject><i/>"]) },
         Inst { name: "math-ends-inside", p: leak(Cfg::with(vec![obs("*")]).strict(false)), chunks: ch(&["<math><mi>x</mi><annotation-xml encoding=\"text/html\"><p>", "y"]) },
         Inst {
             name: "typed-counters-long-names",
@@ -337,13 +338,16 @@ pub fn run_check(ctx: &Ctx) -> i32 {
     let solos: Vec<RunResult> = menu.iter().map(solo).collect();
     // repetition: the same instance twice gives identical observations
     for (i, inst) in menu.iter().enumerate() {
-        let again = solo(inst);
-        ctx.exec(inst.chunks.len() + 2);
-        if let Some(d) = diff(&again, &solos[i]) {
-            ctx.violation_determinism(format!("instance `{}` repeated: {d}", inst.name), json!({"kind": "repeat", "instance": i}), &|| None);
+        for _ in 0..12 {
+            let again = solo(inst);
+            ctx.exec(inst.chunks.len() + 2);
+            if let Some(d) = diff(&again, &solos[i]) {
+                ctx.violation_determinism(format!("instance `{}` repeated: {d}", inst.name), json!({"kind": "repeat", "instance": i}), &|| None);
+                break;
+            }
         }
     }
-    ctx.level_done("repetition of each of the 14 instances");
+    ctx.level_done(&format!("12 repetitions of each of the {} instances", menu.len()));
     // pairs: every ordered pair of menu entries x every interleaving x assignments
     let n = menu.len();
     let pairs: Vec<(usize, usize)> = (0..n).flat_map(|a| (0..n).map(move |b| (a, b))).collect();
